@@ -685,10 +685,12 @@ pub fn run(s: &Scn, st: &mut Stats, check_structure: bool) -> Verdict {
                     probe.p[2] = probe.p[0];
                     probe.ins = [first.clone(), first.clone()].concat();
                 }
-                let c0 = crate::ops_vec::VecCircuit { case: probe, known: true };
+                // the layout alone decides the size (a witness generator that fails on an
+                // admissible input is a verdict of the honest stage, not a sizing error)
+                let c0 = crate::ops_vec::VecCircuit { case: probe, known: false };
                 let mut found = None;
                 for kk in 8..=14u32 {
-                    if let Ok(Ok(())) = catch(|| rayon::sim::isolated(1, || midnight_proofs::dev::MockProver::run(kk, &c0, vec![vec![], vec![]]).map(|_| ()))) {
+                    if let Ok(Ok(_)) = catch(|| rayon::sim::isolated(1, || record_structure(kk, &c0, false))) {
                         found = Some(kk);
                         break;
                     }
@@ -714,10 +716,12 @@ pub fn run(s: &Scn, st: &mut Stats, check_structure: bool) -> Verdict {
                     probe.p[2] = probe.p[0];
                     probe.ins = [first.clone(), first].concat();
                 }
-                let c0 = crate::ops_vec::Vec4Circuit { case: probe, known: true };
+                // the layout alone decides the size (a witness generator that fails on an
+                // admissible input is a verdict of the honest stage, not a sizing error)
+                let c0 = crate::ops_vec::Vec4Circuit { case: probe, known: false };
                 let mut found = None;
                 for kk in 8..=14u32 {
-                    if let Ok(Ok(())) = catch(|| rayon::sim::isolated(1, || midnight_proofs::dev::MockProver::run(kk, &c0, vec![vec![], vec![]]).map(|_| ()))) {
+                    if let Ok(Ok(_)) = catch(|| rayon::sim::isolated(1, || record_structure(kk, &c0, false))) {
                         found = Some(kk);
                         break;
                     }
@@ -728,6 +732,37 @@ pub fn run(s: &Scn, st: &mut Stats, check_structure: bool) -> Verdict {
             }
         };
         return run_generic(s, st, check_structure, k, &|known| crate::ops_vec::Vec4Circuit { case: case.clone(), known });
+    }
+    if case.op.starts_with("vec3.") {
+        let key = format!("{}/{}/{}", case.op, case.p[0], case.p[2]);
+        let cached = k_cache().lock().unwrap().get(&key).copied();
+        let k = match cached {
+            Some(k) => k,
+            None => {
+                let mut probe = case.clone();
+                probe.p[4] = 0;
+                if probe.op.contains("assert_equal") {
+                    let l1 = probe.p[0] as usize;
+                    let first: Vec<Fe> = probe.ins[..=l1].to_vec();
+                    probe.p[2] = probe.p[0];
+                    probe.ins = [first.clone(), first].concat();
+                }
+                // the layout alone decides the size (a witness generator that fails on an
+                // admissible input is a verdict of the honest stage, not a sizing error)
+                let c0 = crate::ops_vec::Vec3Circuit { case: probe, known: false };
+                let mut found = None;
+                for kk in 8..=14u32 {
+                    if let Ok(Ok(_)) = catch(|| rayon::sim::isolated(1, || record_structure(kk, &c0, false))) {
+                        found = Some(kk);
+                        break;
+                    }
+                }
+                let Some(k) = found else { return Verdict::Harness(format!("{}: no k <= 14 fits", case.op)) };
+                k_cache().lock().unwrap().insert(key, k);
+                k
+            }
+        };
+        return run_generic(s, st, check_structure, k, &|known| crate::ops_vec::Vec3Circuit { case: case.clone(), known });
     }
     if case.op.starts_with("vp.") {
         let key = "vp.poseidon".to_string();
@@ -909,7 +944,7 @@ fn run_generic<C: midnight_proofs::plonk::Circuit<Fq>>(s: &Scn, st: &mut Stats, 
         vec![Fq::from(case.p[1])]
     } else if case.op.starts_with("vp.") && case.p.get(1) == Some(&1) {
         case.ins.last().map(|x| x.0).into_iter().collect()
-    } else if case.op.starts_with("vec.") || case.op.starts_with("vec4.") {
+    } else if case.op.starts_with("vec") {
         crate::ops_vec::fillers(case)
     } else {
         vec![]
